@@ -1,0 +1,15 @@
+//go:build !verif
+
+package cpr
+
+// Verification hooks: without the build tag `verif` they are empty and inlined away.
+// See verif_on.go.
+
+// VerifYield is a no-op unless built with -tags verif.
+func VerifYield(site string) {}
+
+// VerifSeqID is a no-op unless built with -tags verif.
+func VerifSeqID() int { return 0 }
+
+// VerifEvent is a no-op unless built with -tags verif.
+func VerifEvent(stage int, phase string, item any) {}
